@@ -297,6 +297,8 @@ type waitOpts struct {
 	polls       bool // report sleeping loops other than allowedPoll
 	allowedPoll []*an.Loop
 	onlyChans   bool // channel operations only (no mutexes, no WaitGroups)
+	// accepted may vouch for a blocking operation (a reason, or "")
+	accepted func(in ssa.Instruction) string
 }
 
 func boundedWaitsOpt(c *an.Ctx, rule string, roots []*ssa.Function, what string, o waitOpts) {
@@ -337,6 +339,12 @@ func boundedWaitsOpt(c *an.Ctx, rule string, roots []*ssa.Function, what string,
 				continue
 			case "recv", "send", "select", "cond.Wait":
 				n++
+				if o.accepted != nil {
+					if why := o.accepted(op.Instr); why != "" {
+						c.OK(rule, key, op.Instr.Pos(), "%s", why)
+						continue
+					}
+				}
 				if snd, ok := op.Instr.(*ssa.Send); ok && op.OnVal != nil && semaphorePaired(p, snd, groupKey(op.OnVal)) {
 					c.OK(rule, key, op.Instr.Pos(), "a slot taken from %s is handed to a goroutine, started on every path, that gives it back first thing (deferred receive)", op.On)
 					continue
